@@ -151,12 +151,12 @@ theorem heal_minimal_partial (t : Table) (hw : WF t) (o : Opts) : ∀ e ∈ heal
 
 /-- The Lean-side checker evaluated on navis' own output is sound: if it accepts `(t, u)`, then `u` has
 the same rows, is a well-formed forest, keeps every old edge, has one new edge per merged fragment, and
-every new edge is strictly shorter than `max_dist`. -/
+no new edge is longer than `max_dist`. -/
 theorem healOKB_sound (t u : Table) (m : Option Nat) (h : healOKB t u m = true) :
     u.map (fun n => (n.id, n.x, n.y, n.z)) = t.map (fun n => (n.id, n.x, n.y, n.z)) ∧ WF u ∧
     (∀ e ∈ uedges t, e ∈ uedges u) ∧
     (newEdges t u).length + (roots u).length = (roots t).length ∧
-    ∀ e ∈ newEdges t u, ∃ d, edgeD2 t e = some d ∧ ∀ k, m = some k → d < k := by
+    ∀ e ∈ newEdges t u, ∃ d, edgeD2 t e = some d ∧ ∀ k, m = some k → d ≤ k := by
   unfold healOKB at h
   simp only [Bool.and_eq_true, List.all_eq_true, decide_eq_true_eq, List.contains_eq_mem] at h
   obtain ⟨⟨⟨⟨h1, h2⟩, h3⟩, h4⟩, h5⟩ := h
